@@ -227,3 +227,37 @@ def item(i, poison=-1):
         raise Boom("poison", i)
     _pt("item-b")
     return ("item", i)
+
+
+def gil_sleeper(n):
+    """A C call that keeps the interpreter lock for n model seconds: no other thread of this process
+    (in particular the control thread) gets to run until it returns."""
+    import pyworkers.utils as utils
+    s = simmod.cur()
+    me = s.me()
+    others = [a for a in s.actors_of(me.pid) if a is not me]
+    for a in others:
+        a.frozen = True
+    try:
+        utils.time.sleep(n)
+    finally:
+        for a in others:
+            a.frozen = False
+    return "gil-released"
+
+
+# ---------------------------------------------------------------------------------------------
+# C02: one target whose behaviour is selected by its first argument
+BIG_SIZES = [0, 100, 70 * 1024, 300 * 1024, 2 * 1024 * 1024]
+C02_VALUES = [None, 0, False, "", [], {"a": [1, (2, 3)], "b": None}, Obj(3), (1, "x")]
+C02_EXCS = [lambda: ValueError("bad", 3), lambda: KeyError("k"), lambda: Boom("boom", [1, 2]), lambda: ZeroDivisionError()]
+
+
+def flex(mode, idx, *args, **kwargs):
+    if mode == 0:
+        return C02_VALUES[idx]
+    if mode == 1:
+        raise C02_EXCS[idx]()
+    if mode == 2:
+        return b"x" * BIG_SIZES[idx]
+    return ("called-with", args, tuple(sorted(kwargs.items())))
